@@ -298,6 +298,64 @@ func noProgress(id string) runner.Result {
 	return runner.Result{ID: id, Verdict: runner.Held, Nontrivial: true, Sig: id, Events: int64(calls)}
 }
 
+// longValidStream: thousands of valid packets, far more bytes than any buffer: the reader's buffer stays
+// within a small multiple of its limit however much has gone through it, and the packets are the
+// reference's under every partition of the reads (a transport that fills every slice it is offered, small
+// chunks, single bytes).
+func longValidStream(id string, seed uint64, npkt int) runner.Result {
+	r := &payload.SplitMix{S: seed}
+	max := payload.Pick(r, []int{200, 1024, 4096})
+	var data []byte
+	sid, mid := uint64(1), uint64(1)
+	for i := 0; i < npkt; i++ {
+		n := r.Intn(max/2 + 1)
+		body := make([]byte, n)
+		for j := range body {
+			body[j] = byte(i + j)
+		}
+		nfr := 1 + r.Intn(2)
+		for f := 0; f < nfr; f++ {
+			lo, hi := f*n/nfr, (f+1)*n/nfr
+			data = refwire.Encode(data, refwire.Frame{Stream: sid, Message: mid, Kind: 2, Done: f == nfr-1, Data: body[lo:hi]})
+		}
+		mid++
+		if r.Intn(200) == 0 {
+			sid++
+			mid = 1
+		}
+	}
+	want, ec, _ := refwire.ReassembleBytes(data, max)
+	if ec != refwire.ErrNone || len(want) != npkt {
+		return runner.Inconcl(id, "the generated stream is not valid for the reference")
+	}
+	desc := fmt.Sprintf("max=%d: %d valid packets, %d bytes", max, npkt, len(data))
+	var fails []string
+	for _, chunk := range []int{0, 1 << 16, 4096, 333, 1} {
+		if chunk == 1 && len(data) > 400000 {
+			continue
+		}
+		var cuts []int
+		for p := chunk; chunk > 0 && p < len(data); p += chunk {
+			cuts = append(cuts, p)
+		}
+		o := runReader(data, max, &wiregen.Scripted{Data: data, Cuts: cuts, Final: io.EOF}, 0)
+		switch {
+		case o.panicked != "":
+			fails = append(fails, fmt.Sprintf("reads of %d bytes: panic %s", chunk, o.panicked))
+		case len(o.pkts) != npkt:
+			fails = append(fails, fmt.Sprintf("reads of %d bytes: %d packets then %q, want %d packets", chunk, len(o.pkts), o.errStr, npkt))
+		case o.capMax > 4*max+64*1024:
+			fails = append(fails, fmt.Sprintf("reads of %d bytes (0 = as much as the reader asks for): the reader's buffer grew to %d bytes with a limit of %d", chunk, o.capMax, max))
+		}
+	}
+	if len(fails) > 0 {
+		return runner.Violation(id, "long-valid-stream", desc+"\n"+strings.Join(fails, "\n"))
+	}
+	res := runner.Hold(id, desc, true)
+	res.Events = int64(npkt)
+	return res
+}
+
 type readerFunc func([]byte) (int, error)
 
 func (f readerFunc) Read(p []byte) (int, error) { return f(p) }
@@ -322,6 +380,17 @@ func gen(tier string, seed uint64) []runner.Scenario {
 		id := fmt.Sprintf("stream/%d/max=%d", i, max)
 		mx := max
 		out = append(out, runner.Scenario{ID: id, Run: func() runner.Result { return checkStream(id, s, mx, nparts) }})
+	}
+	nlong := 6
+	if tier == "thorough" {
+		nlong = 60
+	}
+	for i := 0; i < nlong; i++ {
+		i := i
+		id := fmt.Sprintf("long-valid-stream/%d", i)
+		out = append(out, runner.Scenario{ID: id, Run: func() runner.Result {
+			return longValidStream(id, payload.Hash(seed, 0xC091, uint64(i)), 2000+3000*(i%3))
+		}})
 	}
 	out = append(out, runner.Scenario{ID: "noprogress", Run: func() runner.Result { return noProgress("noprogress") }})
 	return out
